@@ -86,7 +86,7 @@ func (c *c09Worker) Run(path []SOp) (bfs.Outcome, error) {
 	if err != nil {
 		return bfs.Outcome{}, err
 	}
-	out := bfs.Outcome{Obs: tr.Obs, Canon: CanonRecs(tr.Recs, 0, 1, 2) + "|" + CanonPropMax(tr.Released, 0, 1, 2)}
+	out := bfs.Outcome{Obs: tr.Obs, Canon: CanonRecs(tr.Recs, 0, 1, 2) + "|" + CanonPropMax(tr.Released, 0, 1, 2) + "|" + CanonRoutes(path, tr.Released, 0, 1, 2)}
 	if len(path) == 0 {
 		return out, nil
 	}
